@@ -349,6 +349,8 @@ def run(cx):
     check_state_beliefs(cx, "C06.l")
     from props.shared import window_pass_guard
     window_pass_guard(cx, "C06.m")
+    from props.C04 import inst_sizes
+    inst_sizes(cx, "C06.n")
 
 
 SELFTEST = [
